@@ -892,7 +892,22 @@ impl Inner {
     fn handle_channel0_readable(&mut self, ch0_slot: &Channel0Slot) -> Result<()> {
         loop {
             match ch0_slot.common.rx.try_recv() {
-                Ok(message) => self.process_channel_message(0, message)?,
+                Ok(message) => {
+                    // While we are not listening to the channels (buffered writes above the
+                    // high water mark) their queues may hold requests that were handed over
+                    // before the close was asked for: those go out ahead of the Close.
+                    if let IoLoopMessage::ConnectionClose(_) = &message {
+                        if !self.channels_are_registered {
+                            let mut ids: Vec<u16> =
+                                self.chan_slots.iter().map(|(id, _)| *id).collect();
+                            ids.sort_unstable();
+                            for id in ids {
+                                self.handle_channel_readable(id)?;
+                            }
+                        }
+                    }
+                    self.process_channel_message(0, message)?
+                }
                 Err(TryRecvError::Empty) => return Ok(()),
                 Err(TryRecvError::Disconnected) => return EventLoopClientDroppedSnafu.fail(),
             }
